@@ -362,10 +362,10 @@ def check_resting(sc):
             passive = 0.0
             for t, p, sz in snap["matched"]:
                 if t == ups[ack - 1].pt:
-                    if (side == "BACK" and p < limit) or (side == "LAY" and p > limit):
+                    if ((side == "BACK" and p < limit) or (side == "LAY" and p > limit)) and not sc.get("_removal"):
                         raise Violation("fill-worse-than-limit", (side, "arrival"), "fragment at %s for limit %s" % (p, limit), sc)
                     continue
-                if p != limit:
+                if p != limit and not sc.get("_removal"):  # (a runner removal re-prices the fragments of the other runners)
                     raise Violation("passive-fill-not-at-limit", (side,), "passive fragment at %s, limit %s" % (p, limit), sc)
                 passive += sz
             passive = round(passive, 2)
